@@ -967,3 +967,8 @@ mod tests {
         assert_eq!(formatter.format_message(&err), "unexpected end of input");
     }
 }
+
+// verification hook: bounded-model-checking harnesses (compiled only by Kani, `--cfg kani`)
+#[cfg(kani)]
+#[path = "/verif/harness/h_message_formatters.rs"]
+mod verif;
